@@ -1,0 +1,110 @@
+//go:build verif
+
+// Read-only accessors used by the verification harness in /verif.
+// Compiled only with `-tags verif`.
+
+package aa
+
+import "sort"
+
+// VerifTables exposes the unexported sort and requirement tables.
+type VerifTablesT struct {
+	StringAlphabet     []byte
+	FileAlphabet       []string
+	FileAlphabetGroups map[string]string
+	RuleAlphabet       []string
+	Requirements       map[string]map[string][]string
+	MaskToAccess       map[string]string
+	RuleMapKeys        []string
+	LogMapKeys         []string
+	LogMountMapKeys    []string
+	VariableReference  string
+	Paragraph          string
+}
+
+func VerifTables() VerifTablesT {
+	t := VerifTablesT{
+		StringAlphabet:     stringAlphabet,
+		FileAlphabet:       fileAlphabet,
+		FileAlphabetGroups: fileAlphabetGroups,
+		MaskToAccess:       maskToAccess,
+		Requirements:       map[string]map[string][]string{},
+		VariableReference:  regVariableReference.String(),
+		Paragraph:          regParagraph.String(),
+	}
+	for _, k := range ruleAlphabet {
+		t.RuleAlphabet = append(t.RuleAlphabet, string(k))
+	}
+	for k, req := range requirements {
+		t.Requirements[string(k)] = map[string][]string(req)
+	}
+	for k := range newRuleMap {
+		t.RuleMapKeys = append(t.RuleMapKeys, k)
+	}
+	for k := range newLogMap {
+		t.LogMapKeys = append(t.LogMapKeys, k)
+	}
+	for k := range newLogMountMap {
+		t.LogMountMapKeys = append(t.LogMountMapKeys, k)
+	}
+	sort.Strings(t.RuleMapKeys)
+	sort.Strings(t.LogMapKeys)
+	sort.Strings(t.LogMountMapKeys)
+	return t
+}
+
+func VerifCompare(a, b any) int { return compare(a, b) }
+
+func VerifCompareFileAccess(a, b string) int { return compareFileAccess(a, b) }
+
+func VerifMergeValues(kind Kind, key string, a, b []string) []string {
+	return merge(kind, key, a, b)
+}
+
+func VerifToAccess(kind Kind, input string) ([]string, error) { return toAccess(kind, input) }
+
+func VerifTokenize(s string) []string { return tokenizeRule(s) }
+
+// VerifParseRule returns the parsed rule in its canonical textual form.
+func VerifParseRule(s string) string { return parseRule(s).String() }
+
+// VerifKV mirrors the unexported kv tree.
+type VerifKV struct {
+	Key     string
+	Values  []VerifKV
+	HasVals bool
+	Comment string
+}
+
+func verifKV(r rule) []VerifKV {
+	res := make([]VerifKV, 0, len(r))
+	for _, e := range r {
+		res = append(res, VerifKV{Key: e.key, Values: verifKV(e.values), HasVals: e.values != nil, Comment: e.comment})
+	}
+	return res
+}
+
+func VerifParseRuleTree(s string) []VerifKV { return verifKV(parseRule(s)) }
+
+func VerifParseCommaRules(s string) ([][]VerifKV, error) {
+	rules, err := parseCommaRules(s)
+	res := make([][]VerifKV, 0, len(rules))
+	for _, r := range rules {
+		res = append(res, verifKV(r))
+	}
+	return res, err
+}
+
+func VerifSetInHeader(v bool) { inHeader = v }
+
+func VerifInHeader() bool { return inHeader }
+
+func VerifIsAARE(s string) bool { return isAARE(s) }
+
+func VerifResolveValues(f *AppArmorProfileFile, input string) ([]string, error) {
+	return f.resolveValues(input)
+}
+
+func VerifAddLine(r Rule, other Rule) bool { return r.addLine(other) }
+
+func VerifRuleWeight(k string) (int, bool) { w, ok := ruleWeights[Kind(k)]; return w, ok }
